@@ -226,6 +226,13 @@ def havoc_for_loop(ev: Ev, body_stmts, extra_names=(), loop_no=0):
                     st.havoc_obj(gv, "loop%d.%s" % (loop_no, g))
                 else:
                     st.ghost[g] = st.havoc_value(gv, "loop%d.%s" % (loop_no, g))
+    if contract is not None and not havoc_all:
+        from .contract import havoc_path
+        for pth in getattr(contract, "volatile", ()) or ():
+            try:
+                havoc_path(ev, frame.root().env, pth, "loop%d.volatile" % loop_no)
+            except Unsupported:
+                pass
     locals_t = (contract.locals or {}) if contract is not None else {}
     for nme in sorted(names):
         cur = frame.lookup(nme)
